@@ -86,6 +86,24 @@ CHECKS = {
         text="Every unit suffix in several letter cases with integer and fractional numbers is compared against files of v-1, v, v+1 bytes; every specifier of the documented grammar is rendered over a logarithmic size grid and checked for grammar, monotonicity and round trip.",
         note="Trusted: documented multiplier table; exact strings are humansize's business and not modelled.",
         ref="DESIGN.md section 3 / C14"),
+    "C11": dict(
+        level="exploration",
+        technique="runtime monitoring: metamorphic comparison of the parsed-Query dump (debug configuration), status and rows across renderings; exhaustive alias substitution",
+        text="Every generated query is rendered canonically and compared with every whitespace split set (exhaustive up to 8 free gaps), every case variant of each word token, every documented alias (all 76 alias pairs of the documentation tables, one at a time and in random combinations), curly brackets and every optional token.",
+        note="Trusted: `debug = true` prints the parsed Query with {:#?}. A root path ends its shell word (documented convention for paths with spaces), so split sets that glue further words to a root are not spellings of the same query.",
+        ref="DESIGN.md section 3 / C11"),
+    "C15": dict(
+        level="exploration",
+        technique="runtime monitoring: IEEE-754 reference evaluation, metamorphic column-independence (permutations / alone), value-cache key monitor on hook events",
+        text="Cells of generated expression lists are compared exactly with Python's double arithmetic; each list is re-run permuted and column by column; `where <expr> op n` is compared with the model value; `memo` hook events must never serve one cache key to two structurally different expressions.",
+        note="Trusted: Python float = IEEE-754 double; integer columns have no negative zero; power() overflow don't-care.",
+        ref="DESIGN.md section 3 / C15"),
+    "C16": dict(
+        level="exploration",
+        technique="runtime monitoring: per-function Python reference on literals and column values, nested calls, wrong-kind arguments must end with status 0/2 without panic",
+        text="Each documented scalar function and alias is evaluated on ASCII / multi-byte / combining / whitespace / numeric / out-of-range arguments, on literals and on name/size/modified of generated entries, nested to depth 3, and with ill-typed, missing and huge arguments.",
+        note="Trusted: Python str/base64/math/datetime; don't-care list in the evidence assumptions.",
+        ref="DESIGN.md section 3 / C16"),
 }
 
 NOT_APPLICABLE = {}
